@@ -190,22 +190,24 @@ pub fn native_minmax<T, const LESS: bool>(
                     let mut max_key = vm.run_function(key_fn)?;
                     // the best key so far is only held here: guard it against collections
                     let mut max_key_guard = guard_value(max_key);
-                    let mut i = 0;
+                    // `iter` skips keys that can not be found again (NaN, a table key that was
+                    // changed), so positions in it are not positions in the key list: remember
+                    // the chosen row itself
+                    let mut best = (*first.0, *first.1);
 
-                    for (j, (k, value)) in t.iter().enumerate().skip(1) {
+                    for (k, value) in t.iter().skip(1) {
                         vm.stack_push(*value)?;
                         vm.stack_push(*k)?;
                         let key = vm.run_function(key_fn)?;
                         if if LESS { key < max_key } else { key > max_key } {
-                            i = j;
+                            best = (*k, *value);
                             max_key = key;
                             drop(max_key_guard.take());
                             max_key_guard = guard_value(max_key);
                         }
                     }
                     drop(max_key_guard);
-                    let k = t.nth_key(i);
-                    let v = *t.get(&k).unwrap();
+                    let (k, v) = best;
                     let mut result = vm.init_table()?;
                     let t = result.0.as_mut().as_table_mut().unwrap();
                     t.insert(vm.init_string("key")?, k)?;
